@@ -674,3 +674,56 @@ Proof.
     + destruct He as [<-|[<-|He]]; [exact Hlt|exact Hlt|now apply IH].
     + destruct He as [<-|He]; [exact Hlt|now apply IH].
 Qed.
+
+(* ------------------------------------------------------------------ *)
+(* from protocol events to system calls: under EVERY schedule the calls  *)
+(* issued on one copied file are Ops.copy_actions for SOME completion    *)
+(* order of its blocks                                                   *)
+(* ------------------------------------------------------------------ *)
+From XcpModel Require Import Backup Walker Meta Ops.
+
+Section Expand.
+  Variable fc : fin_cfg.
+  Variable src dst : rel.
+  Variable e0 : copy_env.                 (* everything but the order of the writes *)
+  Variable blk : nat -> N * N.            (* (offset, bytes) of block b: Blocks.range_jobs *)
+
+  Definition open_actions : list sysact :=
+    ([AOpenRO (KSrc src); AStat (KSrc src)] ++ (if ce_dst_exists e0 then [AStat (KDst dst)] else [])) ++
+    match ce_backup e0 with Some n => [AReaddir (KDst dst); ARename (KDst dst) (KBak dst n)] | None => [] end ++
+    [ACreateTrunc (KDst dst); AFtruncate (KDst dst) (ce_len e0)] ++
+    (if ce_clone_issued e0 then [AClone (KDst dst)] else []).
+
+  Definition final_actions : list sysact :=
+    (if c_ownership fc then [AChown (KDst dst)] else []) ++
+    (if c_no_perms fc then [] else repeat (ASetxattr (KDst dst)) (ce_nxattr e0) ++ [AChmod (KDst dst)]) ++
+    (if c_no_timestamps fc then [] else [AUtimens (KDst dst)]) ++
+    (if c_fsync fc then [AFsync (KDst dst)] else []).
+
+  Definition ev_actions (x : bev) : list sysact :=
+    match x with
+    | EOpen _ => open_actions
+    | EWrite _ b => [ARead (KSrc src) (fst (blk b)) (snd (blk b)); AWrite (KDst dst) (fst (blk b)) (snd (blk b))]
+    | EFinal _ => final_actions
+    | EInline _ => []
+    end.
+
+  Definition with_writes (ws : list (N * N)) : copy_env :=
+    mkEnv (ce_dst_exists e0) (ce_same_file e0) (ce_backup e0) (ce_len e0) (ce_cloned e0) (ce_clone_issued e0) ws (ce_nxattr e0).
+
+  Lemma flat_map_map {A B C} (f : B -> list C) (g : A -> B) l : flat_map f (map g l) = flat_map (fun x => f (g x)) l.
+  Proof. induction l as [|x l IH]; [reflexivity|]. cbn [map flat_map]. now rewrite IH. Qed.
+
+  Theorem history_is_copy_actions h ev bs :
+    phase_of h ev = PFinal bs -> ce_dst_exists e0 && ce_same_file e0 = false -> ce_cloned e0 = false ->
+    flat_map ev_actions (events_of h ev) = fst (copy_actions fc src dst (with_writes (map blk (rev bs)))) /\
+    snd (copy_actions fc src dst (with_writes (map blk (rev bs)))) = true.
+  Proof.
+    intros Hph Hsame Hcl. pose proof (phase_shape h ev) as Hs. rewrite Hph in Hs. rewrite Hs.
+    unfold copy_actions, with_writes. cbn [ce_dst_exists ce_same_file ce_backup ce_len ce_cloned ce_clone_issued ce_writes ce_nxattr].
+    rewrite Hsame, Hcl. cbn [fst snd]. split; [|reflexivity].
+    cbn [flat_map ev_actions]. rewrite flat_map_app. cbn [flat_map ev_actions]. rewrite app_nil_r.
+    rewrite !flat_map_map. cbn [ev_actions]. unfold open_actions, final_actions.
+    rewrite <- !app_assoc. reflexivity.
+  Qed.
+End Expand.
